@@ -118,7 +118,7 @@ class C10(Check):
     }
     shrink_lists: list[str] = []
     quick_runs = 320
-    thorough_runs = 30000
+    thorough_runs = 150000
     chunk = 2
     smoke_runs = 3
 
